@@ -287,7 +287,7 @@ def run(ctx):
 
     def add(kind, tr, lens, tif, cfg, m):
         traces.append(tr); kinds.append(kind); lens_l.append(lens); tif_l.append(tif)
-        cfg_l.append(cfg or dict(maxpr=0, rn=0, fn=0, ck=0)); meta.append(m)
+        cfg_l.append(cfg or dict(maxpr=0, rn=0, fn=0, ck=0, fnval=0)); meta.append(m)
 
     # ---- (2) reader histories ----
     def reader_case(lens, layout, tif, nops, small):
@@ -363,7 +363,7 @@ def run(ctx):
         tif = rng.choice(['none', 'le'])
         pays = [G.payload(k + 1, L) for k, L in enumerate(lens)]
         tr = []
-        m = dict(lens=lens, tif=tif, cfg=dict(maxpr=maxpr, rn=rn, fn=fn, ck=ck))
+        m = dict(lens=lens, tif=tif, cfg=dict(maxpr=maxpr, rn=rn, fn=fn, ck=ck, fnval=3))
         try:
             f = io.BytesIO()
             f.close = lambda: None
@@ -385,7 +385,7 @@ def run(ctx):
                 L = lens[k - 1] if k <= len(lens) else 0
                 pr = G.project(min(k, len(lens)), p['payload'], L, hint=off)
                 tr.append(dict(op='w_pr', hdrpos=p['hdrpos'], prlen=p['prlen'], n=p['n'], succ=p['succ'], pred=p['pred'],
-                               rn=p['rn'], fn=p['fn'], ck=p['ck'], tif=p['tif'],
+                               rn=p['rn'], fn=p['fn'], ck=p['ck'], tif=p['tif'], rnval=p['rnval'], fnval=p['fnval'],
                                ranges=[k, pr[0][0], pr[0][1]] if len(pr) == 1 and pr[0][0] != 'X' else ['X']))
                 off += p['n']
                 first = not p['succ']
